@@ -186,7 +186,7 @@ def main(run):
     bad = model_check("c01", progs, observed)
     for k, v in feats.items():
         run.dist[k] = v
-    run.rule = ("type-directed random FerretCore programs (ints of 8 widths, bool, functions, recursion, loops, short-circuit, casts); "
+    run.rule = ("type-directed random FerretCore programs (ints of 8 widths, bool, by-value structs with integer fields, methods with value receivers, functions, recursion, while, ranges with inclusive bounds and steps, match, short-circuit, casts); "
                 "distinct = distinct source text; every program contains arithmetic and prints, so all are non-trivial")
     nskip = 0
     for i, (p, r) in enumerate(zip(progs, results)):
